@@ -318,166 +318,173 @@ func Run(rc *core.RunCtx) {
 	desc := func() string {
 		return fmt.Sprintf("transport=%s interval=%s op=%q disconnected=%v recorded=%d\nbytes: %q\nrecorded: %q", map[bool]string{true: "sse", false: "multipart/mixed"}[sse], interval, op.Query, disconnected, len(rec), string(out), rec)
 	}
-	if ov := wr.Overlaps(); len(ov) > 0 {
-		rc.Fail("concurrent-write", map[bool]string{true: "sse", false: "multipart"}[sse], "%s\n%s", ov[0], desc())
+	framing := rc.Property != "C05" // C05 only asks that nothing is left running
+	checkFraming := func() bool {
+		if ov := wr.Overlaps(); len(ov) > 0 {
+			rc.Fail("concurrent-write", map[bool]string{true: "sse", false: "multipart"}[sse], "%s\n%s", ov[0], desc())
+			return false
+		}
+		canon := func(s string) string {
+			j, err := parsers.ParseJSON([]byte(s))
+			if err != nil {
+				return "INVALID(" + err.Error() + "):" + s
+			}
+			return j.Canon()
+		}
+		if sse {
+			if wr.Header().Get("Content-Type") != "text/event-stream" {
+				// errors before the stream starts are plain JSON responses: not a stream
+				rc.Res.Nontrivial = false
+				rc.Res.Sig = execsim.SigOf("sse-nostream", op.Query)
+				return false
+			}
+			evs, err := parsers.ParseSSE(out, disconnected)
+			if err != nil {
+				rc.Fail("sse-framing", "malformed-event", "%v\n%s", err, desc())
+				return false
+			}
+			var nexts []string
+			completes := 0
+			lastKind := ""
+			pings := 0
+			for _, e := range evs {
+				switch e.Kind {
+				case "next":
+					if completes > 0 {
+						rc.Fail("sse-framing", "next-after-complete", "%s", desc())
+						return false
+					}
+					nexts = append(nexts, e.Data)
+					lastKind = "next"
+				case "complete":
+					completes++
+					lastKind = "complete"
+				default:
+					pings++
+				}
+			}
+			w.CountN("sse_pings", pings)
+			for i, n := range nexts {
+				if strings.HasPrefix(canon(n), "INVALID") {
+					rc.Fail("sse-framing", "invalid-json", "event %d: %s\n%s", i, canon(n), desc())
+					return false
+				}
+				if i >= len(rec) || canon(n) != canon(rec[i]) {
+					rc.Fail("sse-payloads", "order-or-content", "event %d does not equal payload %d produced by the operation\n%s", i, i, desc())
+					return false
+				}
+			}
+			if !disconnected {
+				if len(nexts) != len(rec) {
+					rc.Fail("sse-payloads", "count", "%d next events for %d payloads\n%s", len(nexts), len(rec), desc())
+					return false
+				}
+				if completes != 1 || lastKind != "complete" {
+					rc.Fail("sse-framing", "complete", "%d complete events, last non-comment event is %q\n%s", completes, lastKind, desc())
+					return false
+				}
+			} else if completes > 1 {
+				rc.Fail("sse-framing", "complete", "%d complete events\n%s", completes, desc())
+				return false
+			}
+			w.CountN("sse_next_events", len(nexts))
+		} else {
+			mt, params, err := mime.ParseMediaType(wr.Header().Get("Content-Type"))
+			if err != nil || mt != "multipart/mixed" {
+				// gate errors are answered with a plain JSON body
+				rc.Res.Nontrivial = false
+				rc.Res.Sig = execsim.SigOf("mm-nostream", op.Query)
+				return false
+			}
+			boundary := params["boundary"]
+			mr := multipart.NewReader(bytes.NewReader(out), boundary)
+			var parts []string
+			for {
+				p, err := mr.NextPart()
+				if err == io.EOF {
+					break
+				}
+				if err != nil {
+					if disconnected {
+						break
+					}
+					rc.Fail("multipart-framing", "part", "%v\n%s", err, desc())
+					return false
+				}
+				if ct := p.Header.Get("Content-Type"); ct != "application/json" {
+					rc.Fail("multipart-framing", "part-content-type", "part %d has Content-Type %q\n%s", len(parts), ct, desc())
+					return false
+				}
+				b, err := io.ReadAll(p)
+				if err != nil {
+					if disconnected {
+						break
+					}
+					rc.Fail("multipart-framing", "part-body", "%v\n%s", err, desc())
+					return false
+				}
+				parts = append(parts, string(b))
+			}
+			var delivered []string
+			for i, p := range parts {
+				j, err := parsers.ParseJSON([]byte(p))
+				if err != nil {
+					if disconnected && i == len(parts)-1 {
+						break
+					}
+					rc.Fail("multipart-framing", "invalid-json", "part %d: %v\n%s", i, err, desc())
+					return false
+				}
+				if inc := j.Get("incremental"); i > 0 || inc != nil {
+					if inc == nil || inc.K != parsers.Arr {
+						rc.Fail("multipart-payloads", "incremental-shape", "part %d is neither the initial payload nor an incremental batch\n%s", i, desc())
+						return false
+					}
+					for _, e := range inc.A {
+						delivered = append(delivered, e.Canon())
+					}
+				} else {
+					delivered = append(delivered, j.Canon())
+				}
+			}
+			for i, d := range delivered {
+				if i >= len(rec) || d != canon(rec[i]) {
+					rc.Fail("multipart-payloads", "order-or-content", "delivered payload %d does not equal payload %d produced by the operation\n%s", i, i, desc())
+					return false
+				}
+			}
+			closing := "--" + boundary + "--"
+			nClosing := 0
+			lines := strings.Split(string(out), "\r\n")
+			lastNonEmpty := ""
+			for _, l := range lines {
+				if l == closing {
+					nClosing++
+				}
+				if l != "" {
+					lastNonEmpty = l
+				}
+			}
+			if !disconnected {
+				if len(delivered) != len(rec) {
+					rc.Fail("multipart-payloads", "count", "%d payloads delivered, %d produced\n%s", len(delivered), len(rec), desc())
+					return false
+				}
+				if nClosing != 1 || lastNonEmpty != closing {
+					rc.Fail("multipart-framing", "closing-boundary", "closing delimiter appears %d times, last line %q\n%s", nClosing, lastNonEmpty, desc())
+					return false
+				}
+			} else if nClosing > 1 {
+				rc.Fail("multipart-framing", "closing-boundary", "closing delimiter appears %d times\n%s", nClosing, desc())
+				return false
+			}
+			w.CountN("multipart_parts", len(parts))
+			w.CountN("multipart_payloads", len(delivered))
+		}
+		return true
+	}
+	if framing && !checkFraming() {
 		return
-	}
-	canon := func(s string) string {
-		j, err := parsers.ParseJSON([]byte(s))
-		if err != nil {
-			return "INVALID(" + err.Error() + "):" + s
-		}
-		return j.Canon()
-	}
-	if sse {
-		if wr.Header().Get("Content-Type") != "text/event-stream" {
-			// errors before the stream starts are plain JSON responses: not a stream
-			rc.Res.Nontrivial = false
-			rc.Res.Sig = execsim.SigOf("sse-nostream", op.Query)
-			return
-		}
-		evs, err := parsers.ParseSSE(out, disconnected)
-		if err != nil {
-			rc.Fail("sse-framing", "malformed-event", "%v\n%s", err, desc())
-			return
-		}
-		var nexts []string
-		completes := 0
-		lastKind := ""
-		pings := 0
-		for _, e := range evs {
-			switch e.Kind {
-			case "next":
-				if completes > 0 {
-					rc.Fail("sse-framing", "next-after-complete", "%s", desc())
-					return
-				}
-				nexts = append(nexts, e.Data)
-				lastKind = "next"
-			case "complete":
-				completes++
-				lastKind = "complete"
-			default:
-				pings++
-			}
-		}
-		w.CountN("sse_pings", pings)
-		for i, n := range nexts {
-			if strings.HasPrefix(canon(n), "INVALID") {
-				rc.Fail("sse-framing", "invalid-json", "event %d: %s\n%s", i, canon(n), desc())
-				return
-			}
-			if i >= len(rec) || canon(n) != canon(rec[i]) {
-				rc.Fail("sse-payloads", "order-or-content", "event %d does not equal payload %d produced by the operation\n%s", i, i, desc())
-				return
-			}
-		}
-		if !disconnected {
-			if len(nexts) != len(rec) {
-				rc.Fail("sse-payloads", "count", "%d next events for %d payloads\n%s", len(nexts), len(rec), desc())
-				return
-			}
-			if completes != 1 || lastKind != "complete" {
-				rc.Fail("sse-framing", "complete", "%d complete events, last non-comment event is %q\n%s", completes, lastKind, desc())
-				return
-			}
-		} else if completes > 1 {
-			rc.Fail("sse-framing", "complete", "%d complete events\n%s", completes, desc())
-			return
-		}
-		w.CountN("sse_next_events", len(nexts))
-	} else {
-		mt, params, err := mime.ParseMediaType(wr.Header().Get("Content-Type"))
-		if err != nil || mt != "multipart/mixed" {
-			// gate errors are answered with a plain JSON body
-			rc.Res.Nontrivial = false
-			rc.Res.Sig = execsim.SigOf("mm-nostream", op.Query)
-			return
-		}
-		boundary := params["boundary"]
-		mr := multipart.NewReader(bytes.NewReader(out), boundary)
-		var parts []string
-		for {
-			p, err := mr.NextPart()
-			if err == io.EOF {
-				break
-			}
-			if err != nil {
-				if disconnected {
-					break
-				}
-				rc.Fail("multipart-framing", "part", "%v\n%s", err, desc())
-				return
-			}
-			if ct := p.Header.Get("Content-Type"); ct != "application/json" {
-				rc.Fail("multipart-framing", "part-content-type", "part %d has Content-Type %q\n%s", len(parts), ct, desc())
-				return
-			}
-			b, err := io.ReadAll(p)
-			if err != nil {
-				if disconnected {
-					break
-				}
-				rc.Fail("multipart-framing", "part-body", "%v\n%s", err, desc())
-				return
-			}
-			parts = append(parts, string(b))
-		}
-		var delivered []string
-		for i, p := range parts {
-			j, err := parsers.ParseJSON([]byte(p))
-			if err != nil {
-				if disconnected && i == len(parts)-1 {
-					break
-				}
-				rc.Fail("multipart-framing", "invalid-json", "part %d: %v\n%s", i, err, desc())
-				return
-			}
-			if inc := j.Get("incremental"); i > 0 || inc != nil {
-				if inc == nil || inc.K != parsers.Arr {
-					rc.Fail("multipart-payloads", "incremental-shape", "part %d is neither the initial payload nor an incremental batch\n%s", i, desc())
-					return
-				}
-				for _, e := range inc.A {
-					delivered = append(delivered, e.Canon())
-				}
-			} else {
-				delivered = append(delivered, j.Canon())
-			}
-		}
-		for i, d := range delivered {
-			if i >= len(rec) || d != canon(rec[i]) {
-				rc.Fail("multipart-payloads", "order-or-content", "delivered payload %d does not equal payload %d produced by the operation\n%s", i, i, desc())
-				return
-			}
-		}
-		closing := "--" + boundary + "--"
-		nClosing := 0
-		lines := strings.Split(string(out), "\r\n")
-		lastNonEmpty := ""
-		for _, l := range lines {
-			if l == closing {
-				nClosing++
-			}
-			if l != "" {
-				lastNonEmpty = l
-			}
-		}
-		if !disconnected {
-			if len(delivered) != len(rec) {
-				rc.Fail("multipart-payloads", "count", "%d payloads delivered, %d produced\n%s", len(delivered), len(rec), desc())
-				return
-			}
-			if nClosing != 1 || lastNonEmpty != closing {
-				rc.Fail("multipart-framing", "closing-boundary", "closing delimiter appears %d times, last line %q\n%s", nClosing, lastNonEmpty, desc())
-				return
-			}
-		} else if nClosing > 1 {
-			rc.Fail("multipart-framing", "closing-boundary", "closing delimiter appears %d times\n%s", nClosing, desc())
-			return
-		}
-		w.CountN("multipart_parts", len(parts))
-		w.CountN("multipart_payloads", len(delivered))
 	}
 	// the connection is gone: whatever is still parked in a write fails, resolvers return
 	wr.Disconnect()
